@@ -9,6 +9,7 @@ run with the same arguments.
 
 Rules with known findings that are specific to one property (R-YAML-ERROR-ONLY, O-CONVERTER-DOMAIN,
 R-NO-GENERATOR-AROUND-CALLBACK, R-SIMPLE-KEY-FITS) are not in bundles."""
+from . import effects as EFF
 from . import rules_emit as RE
 from . import rules_extra as RX
 from . import rules_marks as RM
@@ -46,6 +47,9 @@ def emit_readable(ctx, repo):
     ctx.call(R6B.r_option_immutable, repo, EMIT_CLASSES)
     ctx.call(RO.r_option_normalised, repo)
     ctx.call(R6B.r_bang_escaped, repo)
+    ctx.call(EFF.r_global_readonly, repo)
+    ctx.call(R6B.r_instance_writes_class, repo, ['emitter', 'serializer', 'representer'])
+    ctx.call(R6B.r_indent_writers, repo)
     ctx.call(R6B.r_block_increment_relative, repo)
     ctx.call(R6B.r_grown_state_reset, repo, EMIT_CLASSES, 3)
     ctx.call(R6B.r_tag_handles_sorted, repo)
@@ -69,6 +73,8 @@ def scan_reference(ctx, repo):
     ctx.call(RRD.r_lookahead_sufficient, repo)
     ctx.call(R6B.r_uri_escapes_joined, repo)
     ctx.call(R6B.r_one_token_per_fetch, repo)
+    ctx.call(R6B.r_need_more_tokens_pure, repo)
+    ctx.call(RD.r_loop_progress, repo)
     ctx.call(R6B.r_block_increment_relative, repo)
 
 
@@ -95,6 +101,7 @@ def compose_identity(ctx, repo):
     ctx.call(RS.r_doc_reset, repo, entries=[e for e in RS.DOC_ENTRIES if e[1] in ('compose_document', '_compose_document',
                                                                                  'construct_document')])
     ctx.call(R6.r_compose_via_dispatch, repo)
+    ctx.call(R6B.r_composer_errors, repo)
 
 
 def construct_protocol(ctx, repo):
@@ -120,3 +127,6 @@ def mapping_rules(ctx, repo):
     ctx.call(R6.r_no_mutate_while_iterating, repo, ['constructor'])
     ctx.call(R6B.r_mapping_store_only, repo)
     ctx.call(R6B.r_merge_by_tag, repo)
+    ctx.call(RR2.r_insertion_order_load, repo)
+    ctx.call(R6B.r_constructed_key_hashing, repo)
+    ctx.call(R6B.r_pairs_from_nodes, repo)
